@@ -1819,6 +1819,9 @@ EGLPNUM_TYPENAME_QSLIB_INTERFACE int EGLPNUM_TYPENAME_QSread_and_load_basis (
 	rval = EGLPNUM_TYPENAME_ILLlib_readbasis (p->lp, p->basis, filename);
 	CHECKRVALG (rval, CLEANUP);
 
+	p->factorok = 0;							/* as in QSload_basis: the factorization and the   */
+	free_cache (p);								/* stored solution belong to the previous basis    */
+
 CLEANUP:
 
 	return rval;
